@@ -76,6 +76,10 @@ def generate(seed, tier):
             elif rel == 'disjoint':
                 pb[key] = str(ipaddress.ip_network((int(net.network_address) ^ (1 << (maxp - 3)), net.prefixlen), strict=False))
     sc['meta']['relation'] = rel
+    if r.random() < 0.4:
+        from sim import byz
+        sc['byz'] = {'kind': r.choice(byz.KINDS_C12), 'seed': r.randrange(2 ** 31)}
+        sc['meta']['byz'] = sc['byz']['kind']
     return sc
 
 
@@ -183,9 +187,32 @@ def run(scenario):
         ctx['wire'] = WireLog(w)
         ctx['cov'] = workload.Coverage(w)
         ctx['tap'] = Wiretap(w, check_reencode=False)
+        ctx['reach'] = {}
+        if scenario.get('byz'):
+            from sim import byz
+            from sim.interpose import Interposer
+            ip = ctx['ip'] = Interposer(w, ctx['tap'])
+            rule, verdict = byz.make(scenario['byz']['kind'], scenario['byz']['seed'], w, ip, ctx['tap'], ctx['reach'])
+            ip.rules.append(rule)
+            ctx['byz_verdict'] = verdict
+            w.established_log = []
+
+            class EstLog:
+                def after_step(self, node, cause):
+                    for sa in node.ike_sas():
+                        if int(sa.state) >= 10 and id(sa) not in seen:
+                            seen.add(id(sa))
+                            w.established_log.append({'node': node.name, 'spi_i': sa.my_spi if sa.is_initiator else sa.peer_spi,
+                                                      'spi_r': sa.peer_spi if sa.is_initiator else sa.my_spi})
+            seen = set()
+            w.monitors.append(EstLog())
 
     def at_end(w, ctx):
-        ctx['reach'] = {}
+        if ctx.get('byz_verdict'):
+            v = ctx['byz_verdict'](w)
+            if v is not None:
+                w.violation(PROP, v[0], v[1], v[2])
+                return
         judge(w, ctx['tap'], scenario, ctx['reach'])
     ctx['at_end'] = at_end
     w = execute(scenario, setup, ctx)
